@@ -941,6 +941,11 @@ func runMap(data json.RawMessage) vh.Verdict {
 			return nil, fmt.Errorf("verif-f: expected int, found %T", v)
 		}
 		if fail[k] {
+			if c.Seed%3 == 0 {
+				// an error that wraps context.Canceled although nothing is being cancelled (a function that gave up on
+				// something of its own): it is the item's error like any other
+				return nil, fmt.Errorf("verif-fail-%d: %w", k, context.Canceled)
+			}
 			return nil, fmt.Errorf("verif-fail-%d", k)
 		}
 		return k*10 + 1, nil
